@@ -4,7 +4,7 @@
 # 1. /repo tests with the change; 2. its demonstration with and without the change; 3. all quick checks with it.
 ROOT="$(cd "$(dirname "${BASH_SOURCE[0]}")/.." && pwd)"
 SRC="$1"; ID="$2"; shift; shift
-OUT="$ROOT/seeded/$ID"; mkdir -p "$OUT"
+OUT="${SEED_OUT_ROOT:-$ROOT/seeded}/$ID"; mkdir -p "$OUT"
 cp "$SRC/patch.diff" "$OUT/patch.diff"; cp "$SRC/demo.rs" "$OUT/demo.rs"; [ -f "$SRC/notes.md" ] && cp "$SRC/notes.md" "$OUT/notes.md"
 if [ -n "$(git -C /repo status --porcelain -- src Cargo.toml tests)" ]; then echo "refusing: /repo not clean"; exit 2; fi
 cleanup() { git -C /repo checkout -- . ; rm -rf /repo/tests; }
